@@ -37,6 +37,17 @@ def obligations(ctx):
                               ag.LIBS, unwind=80, inc=[t], family="integer pipeline", timeout=900,
                               unwindset=",".join("%s.%d:%d" % (f, i, nn + 2) for f, n in (("znx_rotate_i64", 4), ("znx_rotate_inplace_i64", 2), ("znx_automorphism_inplace_i64", 6)) for i in range(n)),
                               desc="4 public calls on symbolic 2-limb vectors with symbolic p1, odd p2: result equals the balanced digits of sigma_p2(x*X^p1)+y computed in 128-bit arithmetic"))
+    # integer pipeline through the big-coefficient space with fewer / as many / more output limbs than the big vector has
+    for rszb in (1, 2, 3, 4):
+        for rng in (0, 1):
+            d = {"NN": 2, "MM": 1, "K": (16, 45)[rszb % 2], "AVX": rszb % 2, "RSZB": rszb}
+            if rng:
+                d["RANGE"] = None
+            obs.append(Ob("int/add-bigrotate-bignormalize%s/N=2/k=%d/res=%d/big=3" % ("-range" if rng else "", d["K"], rszb), "pipe.c", "h_pipe_big", d, ag.LIBS, unwind=80, inc=[t],
+                          family="integer pipeline through big space", timeout=900,
+                          unwindset=",".join("%s.%d:%d" % (f, i, 4) for f, n in (("znx_rotate_i64", 4), ("znx_rotate_inplace_i64", 2)) for i in range(n)),
+                          desc="3 public calls on symbolic 3-limb vectors with symbolic p: the result limbs are the balanced digits of (x+y)*X^p computed in 128-bit arithmetic, "
+                               "including the carries of big limbs that have no counterpart in a shorter output"))
     obs += ntt_module_obs(ctx, t)
     # FFT64 pipelines of 3-4 public calls (shared analysis with C01/C02), shapes different from those checks
     for nn in (4, 8):
